@@ -687,6 +687,9 @@ func scaledScenarios() []hx.Scenario {
 				if c == 27 && n < 3 {
 					continue
 				}
+				if n == 4 && (len(ss) == 2 && ss[1].lateAt == 0 || c == 17) {
+					continue // 216 scripts of 4 calls: one or two subscribers (the second late), Close absent or at 27 ms
+				}
 				quick := n <= 2 || (n == 3 && len(ss) == 1 && c != 27)
 				min := 2
 				if n == 4 {
@@ -740,6 +743,9 @@ func scaledScenarios() []hx.Scenario {
 			for si, ss := range [][]sub{{x}, {x, p}, {p, x}, {s1, p}, {p, s1}, {s1}, {x, pLate}, {x, s1}, {x, x, p}, {p, x, s1}, {s1, p, p}} {
 				for _, c := range []int{-1, 30, 17} {
 					for _, tl := range []bool{false, true} {
+						if tl && (leave == 15 || len(ss) == 3) {
+							continue // timeline mode only adds the default placement of the clock
+						}
 						quick := !tl && ((di == 0 && leave == 25 && si <= 4 && c != 17) || (di == 1 && leave == 25 && si <= 1 && c == -1) || (di >= 5 && si <= 3 && c != 17))
 						add(scen{prods: [][]call{sc}, subs: ss, closeAt: c, timeline: tl}, 2, 5, !quick)
 					}
@@ -782,9 +788,11 @@ func trueSizeScenarios(capacity int) []hx.Scenario {
 				out = append(out, hx.Scenario{
 					Name:  fmt.Sprintf("cap%d %s", capacity, s.name()),
 					Class: classOf(s), ThoroughOnly: extra != 2,
-					// few, long scenarios: the quick tier stops at the mandatory bound
-					Opts: opts(s, 1, 3), QuickBound: hx.Ptr(1),
-					Mk: func() *mc.Exec { return mkExec(scn) },
+					// long executions (~1000 decisions): the explorer keeps every
+					// child of the next level in memory, so only the mandatory
+					// bound is explored
+					Opts: opts(s, 1, 1),
+					Mk:   func() *mc.Exec { return mkExec(scn) },
 				})
 			}
 		}
